@@ -80,57 +80,63 @@ ViewFaults == <<prune, db, root, rc, contents, root2, contents2,
 ViewFull == <<prune, db, root, rc, contents, root2, contents2,
               bopen, cache, corder, broot, brc, bcontents, bops, lost, past>>
 
-\* ---- behaviour emission (spec -> code): one line per generated transition ----
+\* ---- behaviour emission (spec -> code) ----
+\* Observables are operators of a VALUE s (the state as a record), applied to Cur or Cur':
+\* TLC does not cache lazily evaluated operator arguments while it evaluates a primed
+\* expression, which makes recursive operators (J, Stored, Canon ...) exponential there;
+\* inside ObsOf(s) nothing is primed, only the outermost argument is.
+Cur == [prune |-> prune, root |-> root, contents |-> contents, db |-> db, rc |-> rc,
+        bopen |-> bopen, broot |-> broot, bcontents |-> bcontents, brc |-> brc,
+        root2 |-> root2, contents2 |-> contents2, lost |-> lost, past |-> past]
 LookJ(c) == {<<k, JV(ModelVal(c, k))>> : k \in LookupKeys}
-Obs == [prune |-> prune, root |-> J(root), look |-> LookJ(contents),
-        db |-> JSet(db), rc |-> JBag(rc),
-        bopen |-> bopen, broot |-> J(broot), blook |-> LookJ(bcontents), brc |-> JBag(brc),
-        stored |-> JSet(Stored(root)),
-        root2 |-> J(root2), look2 |-> LookJ(contents2), nlost |-> Cardinality(lost)]
-ObsC01 == [prune |-> prune, root |-> J(root), look |-> LookJ(contents), db |-> {}, rc |-> {},
-           bopen |-> bopen, broot |-> J(broot), blook |-> LookJ(bcontents), brc |-> {},
-           root2 |-> J(root2), look2 |-> LookJ(contents2), nlost |-> Cardinality(lost),
-           light |-> TRUE]
-\* ---- per-state tables (emitted once per distinct state, by an INVARIANT) ----
-TravTable == {LET o == TravRoot(root, p, Only(db)) IN
-              [p |-> p, d |-> Describe(o), n |-> IF o.kind = "missing" THEN J(o.n) ELSE <<>>,
-               hops |-> o.hops, reads |-> o.reads] : p \in TravPaths(contents)}
-ObsC08 == [trav |-> TravTable, db |-> JSet(db)] @@ ObsC01
-ProofTable == {LET pf == Proof(root, k) IN
-               [k |-> k, proof |-> [i \in 1..Len(pf) |-> J(pf[i])],
-                path |-> JSet(PathNodes(root, k)), v |-> JV(ModelVal(contents, k))] : k \in LookupKeys}
-NeedTable == {[r |-> J(pr.r), k |-> k, need |-> JSet(NeededNodes(pr.r, k)), v |-> JV(ModelVal(pr.c, k))] :
-                pr \in past \cup {[r |-> root, c |-> contents]}, k \in LookupKeys}
-ObsC03 == [proofs |-> ProofTable, needs |-> NeedTable, db |-> JSet(db)] @@ ObsC01
-\* (written as single recursive passes: TLC re-evaluates LET-bound sequences at every use)
+ObsOf(s) == [prune |-> s.prune, root |-> J(s.root), look |-> LookJ(s.contents),
+             db |-> JSet(s.db), rc |-> JBag(s.rc),
+             bopen |-> s.bopen, broot |-> J(s.broot), blook |-> LookJ(s.bcontents), brc |-> JBag(s.brc),
+             stored |-> JSet(Stored(s.root)),
+             root2 |-> J(s.root2), look2 |-> LookJ(s.contents2), nlost |-> Cardinality(s.lost)]
+ObsC01Of(s) == [prune |-> s.prune, root |-> J(s.root), look |-> LookJ(s.contents), db |-> {}, rc |-> {},
+                bopen |-> s.bopen, broot |-> J(s.broot), blook |-> LookJ(s.bcontents), brc |-> {},
+                root2 |-> J(s.root2), look2 |-> LookJ(s.contents2), nlost |-> Cardinality(s.lost),
+                light |-> TRUE]
+\* ---- tables describing one state ----
+TravTableOf(s) == {LET o == TravRoot(s.root, p, Only(s.db)) IN
+                   [p |-> p, d |-> Describe(o), n |-> IF o.kind = "missing" THEN J(o.n) ELSE <<>>,
+                    hops |-> o.hops, reads |-> o.reads] : p \in TravPaths(s.contents)}
+ObsC08Of(s) == [trav |-> TravTableOf(s), db |-> JSet(s.db)] @@ ObsC01Of(s)
+ProofTableOf(s) == {LET pf == Proof(s.root, k) IN
+                    [k |-> k, proof |-> [i \in 1..Len(pf) |-> J(pf[i])],
+                     path |-> JSet(PathNodes(s.root, k)), v |-> JV(ModelVal(s.contents, k))] : k \in LookupKeys}
+NeedTableOf(s) == {[r |-> J(pr.r), k |-> k, need |-> JSet(NeededNodes(pr.r, k)), v |-> JV(ModelVal(pr.c, k))] :
+                     pr \in s.past \cup {[r |-> s.root, c |-> s.contents]}, k \in LookupKeys}
+ObsC03Of(s) == [proofs |-> ProofTableOf(s), needs |-> NeedTableOf(s), db |-> JSet(s.db)] @@ ObsC01Of(s)
 RECURSIVE PreJ(_, _)
 RECURSIVE PreKidsJ(_, _, _)
 PreKidsJ(n, pre, i) == IF i > Len(SubSegs(n)) THEN <<>>
                        ELSE LET s == SubSegs(n)[i] IN PreJ(ChildVia(n, s), TLCEval(pre \o s)) \o PreKidsJ(n, pre, i + 1)
 PreJ(n, pre) == << [p |-> pre, t |-> n.t, subs |-> SubSegs(n), v |-> JV(NodeValue(n)), suffix |-> Suffix(n)] >>
                 \o PreKidsJ(n, pre, 1)
-RECURSIVE SortedItemsJ(_)
-SortedItemsJ(K) == IF K = {} THEN <<>>
-                   ELSE LET m == MinKey(K).k IN << <<m, JV(contents[m])>> >> \o SortedItemsJ(K \ {m})
-IterTable ==
-  [items |-> SortedItemsJ(Live(contents)),
-   nodes |-> PreJ(root, <<>>),
-   next |-> {[q |-> q, r |-> SuccOf(Live(contents), q)] : q \in IterQueries},
-   first |-> MinKey(Live(contents))]
-ObsC10 == [iter |-> IterTable] @@ ObsC01
-EmitStC10 == PrintT(ToJson([h |-> hist, st |-> ObsC10]))
-EmitC10 == PrintT(ToJson([h |-> hist', st |-> ObsC10']))
-\* (state-level emission is evaluated unprimed: TLC caches lazily evaluated operator arguments
-\* there, which it does not do while it is constructing a successor state)
-EmitStAll == PrintT(ToJson([h |-> hist, st |-> Obs]))
-EmitStC01 == PrintT(ToJson([h |-> hist, st |-> ObsC01]))
-EmitStC08 == PrintT(ToJson([h |-> hist, st |-> ObsC08]))
-EmitStC03 == PrintT(ToJson([h |-> hist, st |-> ObsC03]))
-ObsC07 == [trav |-> TravTable] @@ Obs
-EmitStC07 == PrintT(ToJson([h |-> hist, st |-> ObsC07]))
-EmitC08 == PrintT(ToJson([h |-> hist', st |-> ObsC08']))
-EmitC03 == PrintT(ToJson([h |-> hist', st |-> ObsC03']))
-EmitC07 == PrintT(ToJson([h |-> hist', st |-> ObsC07']))
-EmitC01 == PrintT(ToJson([h |-> hist', st |-> ObsC01']))
-EmitAll == PrintT(ToJson([h |-> hist', st |-> Obs']))
+RECURSIVE SortedItemsJ(_, _)
+SortedItemsJ(c, K) == IF K = {} THEN <<>>
+                      ELSE LET m == MinKey(K).k IN << <<m, JV(c[m])>> >> \o SortedItemsJ(c, K \ {m})
+IterTableOf(s) ==
+  [items |-> SortedItemsJ(s.contents, Live(s.contents)),
+   nodes |-> PreJ(s.root, <<>>),
+   next |-> {[q |-> q, r |-> SuccOf(Live(s.contents), q)] : q \in IterQueries},
+   first |-> MinKey(Live(s.contents))]
+ObsC10Of(s) == [iter |-> IterTableOf(s)] @@ ObsC01Of(s)
+ObsC07Of(s) == [trav |-> TravTableOf(s)] @@ ObsOf(s)
+\* state-level emitters (INVARIANT: once per distinct state; in simulation once per generated successor)
+EmitStAll == PrintT(ToJson([h |-> hist, st |-> ObsOf(Cur)]))
+EmitStC01 == PrintT(ToJson([h |-> hist, st |-> ObsC01Of(Cur)]))
+EmitStC03 == PrintT(ToJson([h |-> hist, st |-> ObsC03Of(Cur)]))
+EmitStC07 == PrintT(ToJson([h |-> hist, st |-> ObsC07Of(Cur)]))
+EmitStC08 == PrintT(ToJson([h |-> hist, st |-> ObsC08Of(Cur)]))
+EmitStC10 == PrintT(ToJson([h |-> hist, st |-> ObsC10Of(Cur)]))
+\* transition-level emitters (ACTION_CONSTRAINT: once per generated transition)
+EmitAll == PrintT(ToJson([h |-> hist', st |-> ObsOf(Cur')]))
+EmitC01 == PrintT(ToJson([h |-> hist', st |-> ObsC01Of(Cur')]))
+EmitC03 == PrintT(ToJson([h |-> hist', st |-> ObsC03Of(Cur')]))
+EmitC07 == PrintT(ToJson([h |-> hist', st |-> ObsC07Of(Cur')]))
+EmitC08 == PrintT(ToJson([h |-> hist', st |-> ObsC08Of(Cur')]))
+EmitC10 == PrintT(ToJson([h |-> hist', st |-> ObsC10Of(Cur')]))
 =============================================================================
